@@ -1,6 +1,6 @@
 SPECIFICATION Spec
 CONSTANTS
-  Reqs = {2, 3, 4, 5, 6}
+  Reqs = {1, 2, 3, 4, 5, 6}
   Factors = {1, 2}
   Depth = 6
   Emit = TRUE
